@@ -11,7 +11,7 @@ def macro_rules(chk, prog):
     names = ["humphrey_json::json", "humphrey_json::json_array_internal", "humphrey_json::json_object_internal", "humphrey_json::json_map",
              "humphrey_json::impl_into_json_for_number", "humphrey_json::impl_from_json_for_number"]
     found = [n for n in names if n in prog.macros]
-    chk.floor("macro_rules! definitions", len(found), 6)
+    chk.floor("macro_rules! definitions", len(found), 3)
     total = 0
     for n in found:
         m = prog.macros[n]
@@ -25,7 +25,7 @@ def macro_rules(chk, prog):
                 chk.ob("R1.metavars", n, f"arm `{label}`: ${v} is transcribed at depth {depth}", ok,
                        (f"${v}:{frag} is bound by the matcher but never used in the expansion: the caller's tokens matched by it are silently discarded"
                         if v not in used else f"${v} is bound at repetition depth {depth} but used at {sorted(used[v])}"), where=f"{m['file']}:{m['line']}")
-    chk.floor("macro arms", total, 25)
+    chk.floor("macro arms", total, 12)
     # sibling munchers offer the same next-element forms
     forms = {}
     for n in MUNCHERS:
